@@ -97,6 +97,26 @@ Theorem retained_bounded_flat :
            (flat_run R rsize standalone above st recs).
 Proof. exact retained_bounded_flat_proof. Qed.
 
+(* Targets that have child records or are groups (EDI segment_group, csv2 child_records /
+   record_group, fixedlength2 child_envelopes / envelope_group): an instance is one subtree
+   [hrec]; the bound is the same with the subtree's size. *)
+Theorem retained_bounded_hier :
+  forall (standalone : bool) (above : nat) recs kids0 st,
+    Forall (is_target_rec hrec) recs ->
+    fl_kids hrec (flat_prologue hrec st) = kids0 ->
+    Forall (fun d => snd d = if standalone then hsize (fst d)
+                             else above + fl_size hrec hsize kids0 + hsize (fst d))
+           (flat_run hrec hsize standalone above st recs).
+Proof. exact (retained_bounded_flat_proof hrec hsize). Qed.
+
+(* A run of ANY number of consecutive rejected instances (all inside one Read of the caller)
+   leaves the reader where it was: what follows runs as if the run had not been there. *)
+Theorem rejected_run_leaves_nothing :
+  forall (R : Type) (rsize : R -> nat) (above : nat) ys st rest,
+    flat_run R rsize false above st (map (fun y => FTarget R y false) ys ++ rest) =
+    flat_run R rsize false above (flat_prologue R st) rest.
+Proof. exact rejected_run_leaves_nothing_proof. Qed.
+
 (* Whether, and before which reader activity, the caller hands the previous node back through
    Release makes no difference to what a record-at-a-time reader retains: the ingester releases
    the node of every record the reader returned - also of one whose transform failed - and a
@@ -176,3 +196,12 @@ Example c17_json_object_values_rejected :
   /\ forallb (fun k => negb (pm_of tg (firstn k (jkeys_chain [bs "x"; bs "recs"])))) [0; 1; 2] = true
   /\ forallb (fun j => jwf j && pm_of tg (jkeys_chain [bs "x"; bs "recs"] ++ [jname true j])) recs = true.
 Proof. vm_compute. repeat split. Qed.
+
+(* group instances with children, runs of rejections of different lengths between deliveries *)
+Example c17_hier_runs_nonvacuous :
+  let g n := HRec 1 [HRec 3 []; HRec 2 (repeat (HRec 2 []) n)] in
+  let rej := FTarget hrec (g 5) false in
+  map snd (flat_run hrec hsize false 2 (mkFS hrec [] false)
+             [FTarget hrec (g 1) true; rej; rej; rej; FTarget hrec (g 2) true; rej; rej; FTarget hrec (g 1) true])
+  = [2 + hsize (g 1); 2 + hsize (g 2); 2 + hsize (g 1)].
+Proof. vm_compute. reflexivity. Qed.
